@@ -94,13 +94,16 @@ TStep ==
               <<lab # "fail" \/ C!FailedAtChunkP(R.op, "failed", IF St(pos - 1).at = "cchunk" THEN "chunk" ELSE "other", pubAtStart, obs),
                 "FailedLeavesPublishedComplete">>,
               \* the Reader object that performed the call, re-opened, still exposes the recording
-              <<lab # "return" \/ R.reopen \in {"ok", "skip"}, "ReaderFollows">> >>)
+              <<lab # "return" \/ R.reopen \in {"ok", "skip"}, "ReaderFollows">>,
+              \* a data file that is a link into a store: the call works on the names it was given, the store stays as it was
+              <<pos < Len(R.steps) \/ R.store = "ok", "LinkedDataUntouched">> >>)
     /\ pos' = pos + 1 /\ UNCHANGED tid
 
 \* constructor lookup on one directory: R.resolved[e] = binary that Reader(entry e) opened ("none", "skip", "wrong")
 TResolve ==
     /\ pos = 1 /\ R.op = "resolve"
-    /\ prop' = Pick(prop, << <<C!ResolveP(fs, LAMBDA e : R.resolved[e]), "ResolveSame">> >>)
+    /\ prop' = Pick(prop, << <<C!ResolveP(fs, LAMBDA e : R.resolved[e]), "ResolveSame">>,
+                              <<R.store = "ok", "LinkedDataUntouched">> >>)
     /\ impl' = Pick(impl, << <<\A e \in {"bin", "cbin", "meta"} :
                                   R.resolved[e] = "skip" \/ R.resolved[e] = "wrong" \/ R.resolved[e] = C!ResolveData(fs, e),
                               "Resolve">> >>)
